@@ -5,7 +5,6 @@ from vlib import core, xsltrun
 LEVEL = "proof"
 FAMILY = "sort"
 XSL = "http://www.w3.org/1999/XSL/Transform"
-SENTINEL = "135792468"
 
 
 def bits(x):
@@ -62,24 +61,26 @@ def key_expr(k):
 
 
 def build_sheet(case):
-    """one transformation = unsorted pass (ids and the library's own key values) + sorted pass"""
+    """one transformation; per select expression of the case (one or two: a second sort in the same
+    transformation sees caches and scratch vectors used before): an unsorted pass (ids and the
+    library's own key values) and the sorted pass"""
     emit_keys = ""
     for k in case["keys"]:
         e = key_expr(k)
         emit_keys += ('|<xsl:value-of select="number(%s)"/>;<xsl:value-of select="1 div number(%s)"/>;<xsl:value-of select="string(%s)"/>' % (e, e, e))
     body = '<xsl:value-of select="@id"/>:<xsl:value-of select="position()"/>/<xsl:value-of select="last()"/>,'
     sorts = sort_elems_xml(case)
-    if case["mode"] == "for-each":
-        sorted_pass = '<xsl:for-each select="%s">%s%s</xsl:for-each>' % (case["sel"], sorts, body)
-        extra = ""
-    else:
-        sorted_pass = '<xsl:apply-templates select="%s" mode="m">%s</xsl:apply-templates>' % (case["sel"], sorts)
-        extra = '<xsl:template match="*" mode="m">%s</xsl:template>' % body
+    extra = '<xsl:template match="*" mode="m">%s</xsl:template>' % body if case["mode"] != "for-each" else ""
+    main = ""
+    for sel in case["sels"]:
+        if case["mode"] == "for-each":
+            sorted_pass = '<xsl:for-each select="%s">%s%s</xsl:for-each>' % (sel, sorts, body)
+        else:
+            sorted_pass = '<xsl:apply-templates select="%s" mode="m">%s</xsl:apply-templates>' % (sel, sorts)
+        main += ('<xsl:for-each select="%s"><xsl:value-of select="@id"/>%s<xsl:text>&#10;</xsl:text></xsl:for-each>'
+                 '<xsl:text>==&#10;</xsl:text>%s<xsl:text>&#10;##&#10;</xsl:text>' % (sel, emit_keys, sorted_pass))
     return ('<xsl:stylesheet version="1.0" xmlns:xsl="%s"><xsl:output method="text"/>'
-            '<xsl:template match="/">'
-            '<xsl:for-each select="%s"><xsl:value-of select="@id"/>%s<xsl:text>&#10;</xsl:text></xsl:for-each>'
-            '<xsl:text>==&#10;</xsl:text>%s<xsl:text>&#10;</xsl:text></xsl:template>%s</xsl:stylesheet>'
-            % (XSL, case["sel"], emit_keys, sorted_pass, extra))
+            '<xsl:template match="/">%s</xsl:template>%s</xsl:stylesheet>' % (XSL, main, extra))
 
 
 def build_source(case):
@@ -90,31 +91,37 @@ def build_source(case):
 
 
 def parse_output(txt):
-    """-> (unsorted [(id, [(float, str)])], sorted [(id, pos, last)]) or None"""
-    if "==\n" not in txt:
+    """-> list (one per pass) of (unsorted [(id, [(float, str)])], sorted [(id, pos, last)]), or None"""
+    out = []
+    chunks = txt.split("\n##\n")
+    if chunks[-1] != "":
         return None
-    a, b = txt.split("==\n", 1)
-    uns = []
-    for line in a.split("\n"):
-        if not line:
-            continue
-        f = line.split("|")
-        vals = []
-        for x in f[1:]:
-            num, inv, s = x.split(";", 2)
-            v = float("nan") if num == "NaN" else float(num.replace("Infinity", "inf"))
-            if v == 0 and inv == "-Infinity":
-                v = -0.0
-            vals.append((v, s))
-        uns.append((int(f[0]), vals))
-    srt = []
-    for item in b.strip("\n").split(","):
-        if not item:
-            continue
-        i, rest = item.split(":")
-        p, l = rest.split("/")
-        srt.append((int(i), int(p), int(l)))
-    return uns, srt
+    for ch in chunks[:-1]:
+        if "==\n" not in ch:
+            return None
+        a, b = ch.split("==\n", 1)
+        uns = []
+        for line in a.split("\n"):
+            if not line:
+                continue
+            f = line.split("|")
+            vals = []
+            for x in f[1:]:
+                num, inv, s = x.split(";", 2)
+                v = float("nan") if num == "NaN" else float(num.replace("Infinity", "inf"))
+                if v == 0 and inv == "-Infinity":
+                    v = -0.0
+                vals.append((v, s))
+            uns.append((int(f[0]), vals))
+        srt = []
+        for item in b.strip("\n").split(","):
+            if not item:
+                continue
+            i, rest = item.split(":")
+            p, l = rest.split("/")
+            srt.append((int(i), int(p), int(l)))
+        out.append((uns, srt))
+    return out
 
 
 # ---------------------------------------------------------------------------------------------
@@ -169,9 +176,9 @@ def oracle(case, uns, srt):
 # ---------------------------------------------------------------------------------------------
 # model line
 
-def model_line(case, uns):
+def model_line(case, uns, lid):
     n = len(uns)
-    parts = [case["id"], str(len(case["keys"])), str(n)]
+    parts = [lid, str(len(case["keys"])), str(n)]
     for k in case["keys"]:
         parts.append("-")    # lang: never generated (collation is assumed, not modelled)
         for name in ("data-type", "order", "case-order"):
@@ -211,15 +218,17 @@ def model_expected(case, uns, model_out):
 ALPHA_L = "abcdefghijklmnopqrstuvwxyz0123456789"
 ALPHA_U = "ABCDEFGHIJKLMNOPQRSTUVWXYZ0123456789"
 
-NUM_SPECIAL = [("x", "1"), ("", "1"), ("0", "1"), ("0", "-1"), ("1", "0"), ("-1", "0"), ("0", "0"),
-               (SENTINEL, "1"), ("271584936", "2"), ("-" + SENTINEL, "1"), ("1", "1"), ("-1", "1"), ("1", "2"), ("-1", "2"),
-               ("1e3", "1"), (" 7 ", "1"), ("7", "1"), ("7.0", "1")]
+def num_special():
+    st = sentinel_text()
+    return [("x", "1"), ("", "1"), ("0", "1"), ("0", "-1"), ("1", "0"), ("-1", "0"), ("0", "0"),
+            (st, "1"), (st, "1"), (repr(float(st) * 2), "2"), ("-" + st, "1"), ("1", "1"), ("-1", "1"), ("1", "2"), ("-1", "2"),
+            ("1e3", "1"), (" 7 ", "1"), ("7", "1"), ("7.0", "1")]
 
 
 def gen_num_value(r, palette):
     c = r.random()
     if c < 0.35:
-        return r.choice(NUM_SPECIAL)
+        return r.choice(num_special())
     if c < 0.8:
         return (str(r.choice(palette)), "1")
     return (str(r.randrange(-40, 40)), r.choice(["1", "2", "4", "-1", "8"]))
@@ -278,7 +287,7 @@ def gen_case(ctx, cid, n, nkeys, force=None):
     # few distinct values per key so that ties (and therefore later keys and stability) matter
     npal = force.get("npal") or r.choice([1, 2, 3, 5, 12])
     rows, text = [], []
-    pal_n = [[r.choice([0, 1, 2, 3, 5, 10, -1, -7, 100, int(SENTINEL)]) for _ in range(npal)] for _ in range(nkeys)]
+    pal_n = [[r.choice([0, 1, 2, 3, 5, 10, -1, -7, 100, sentinel_text()]) for _ in range(npal)] for _ in range(nkeys)]
     pal_s = [["".join(r.choice(alpha) for _ in range(r.choice([1, 2, 3]))) for _ in range(npal)] for _ in range(nkeys)]
     for i in range(n):
         row = {"g": str(r.randrange(2))}
@@ -301,7 +310,10 @@ def gen_case(ctx, cid, n, nkeys, force=None):
     sel = force.get("sel") or r.choice(["/r/n"] * 6 + ["/r/n[@g='1']", "/r/n[last()]/preceding-sibling::n",
                                                        "/r/n[@g='1'] | /r/n[@g='0']", "//n", "/r/*", "/r/n[1]/following-sibling::*"])
     mode = force.get("mode") or r.choice(["for-each", "for-each", "apply"])
-    return {"id": cid, "n": n, "rows": rows, "text": text, "sel": sel, "keys": keys, "mode": mode}
+    sels = [sel]
+    if r.random() < 0.3:      # a second sort in the same transformation, over another node list
+        sels.append(r.choice(["/r/n[@g='0']", "/r/n[@g='1']", "/r/n[position() &gt; 1]", "/r/n", "/r/n[position() mod 2 = 0]"]))
+    return {"id": cid, "n": n, "rows": rows, "text": text, "sel": sel, "sels": sels, "keys": keys, "mode": mode}
 
 
 def gen_cases(ctx, count):
@@ -331,6 +343,51 @@ def gen_cases(ctx, count):
     while len(cases) < count:
         add("random", r.choice([2, 3, 4, 5, 8, 13, 21, 34, 60]), r.choice([1, 1, 2, 2, 3]))
     return cases
+
+
+# ---------------------------------------------------------------------------------------------
+# the bit-pattern model of the IEEE comparisons (d_is_nan / d_lt / d_gt on Z) against the hardware
+
+def ieee_probe(ctx, model):
+    r = ctx.rng
+    special = [0, 1 << 63, 0x7FF0000000000000, 0xFFF0000000000000, 0x7FF8000000000000, 0xFFF8000000000001, 0x7FF0000000000001,
+               1, (1 << 63) | 1, 0x000FFFFFFFFFFFFF, 0x0010000000000000, 0x7FEFFFFFFFFFFFFF, 0xFFEFFFFFFFFFFFFF, bits(1.0), bits(-1.0),
+               bits(float(sentinel_text()))]
+    pairs = [(a, b) for a in special for b in special]
+    for _ in range(3000 if not ctx.thorough else 30000):
+        a = r.choice(special) if r.random() < 0.2 else r.getrandbits(64)
+        b = r.choice([a, a ^ 1, a ^ (1 << 63), r.getrandbits(64), r.choice(special)])
+        pairs.append((a, b))
+    lines = ["q%d N %016x %016x" % (i, a, b) for i, (a, b) in enumerate(pairs)]
+    rc, res, raw = core.run_lines_parallel(model, lines)
+    bad = []
+    for i, (a, b) in enumerate(pairs):
+        x, y = struct.unpack(">d", struct.pack(">Q", a))[0], struct.unpack(">d", struct.pack(">Q", b))[0]
+        if math.isnan(x):
+            exp = "Eq" if math.isnan(y) else "Lt"
+        elif math.isnan(y):
+            exp = "Gt"
+        else:
+            exp = "Lt" if x < y else ("Gt" if x > y else "Eq")
+        ctx.count("ieee-probe")
+        if res.get("q%d" % i) != exp:
+            bad.append("num_compare %016x %016x: model %s, IEEE comparison %s" % (a, b, res.get("q%d" % i), exp))
+    return bad
+
+
+_SENT = {}
+
+
+def sentinel_text():
+    """the cache's dummy value as written in the current source (so that keys equal to it are generated)"""
+    if "t" not in _SENT:
+        import srcfacts
+        try:
+            v = srcfacts.GENERATORS["GenSort"]()[1]["sentinel"]
+        except Exception:
+            v = 135792468.0
+        _SENT["t"] = str(int(v)) if v == int(v) and abs(v) < 1e15 else repr(v)
+    return _SENT["t"]
 
 
 # ---------------------------------------------------------------------------------------------
@@ -398,10 +455,48 @@ def run_lang_corpus(ctx, exe, known):
 
 # ---------------------------------------------------------------------------------------------
 
+def decode_result(r):
+    if r is None:
+        return ("crash",)
+    f = r.split("|")
+    if f[0] == "ok":
+        return ("ok", bytes.fromhex(f[1]) if len(f) > 1 else b"")
+    return ("err", int(f[1]), bytes.fromhex(f[2]).decode("utf-8", "replace") if len(f) > 2 else "")
+
+
+def run_jobs(jobs, exe, chunk=48):
+    """run the transformations in batches (one driver process per batch).  A crash loses the rest of
+    its batch: those cases are rerun one per process.  Returns (results, [sequence of jobs that
+    crashed a driver although none of them fails alone])"""
+    from concurrent.futures import ThreadPoolExecutor
+    chunks = [jobs[i:i + chunk] for i in range(0, len(jobs), chunk)]
+
+    def run_chunk(ch):
+        rc, res, raw = core.run_lines(exe, "\n".join(xsltrun.line_of(j) for j in ch) + "\n", sep="|")
+        return res
+    with ThreadPoolExecutor(core.NPROC) as ex:
+        outs = list(ex.map(run_chunk, chunks))
+        res, lost, seqs = {}, [], []
+        for ch, o in zip(chunks, outs):
+            missing = [j for j in ch if j["id"] not in o]
+            if missing:
+                first = ch.index(missing[0])
+                seqs.append(ch[:first + 1])
+                lost += missing
+            for j in ch:
+                res[j["id"]] = decode_result(o.get(j["id"]))
+        alone = list(ex.map(lambda j: run_chunk([j]), lost))
+    culprit = False
+    for j, o in zip(lost, alone):
+        res[j["id"]] = decode_result(o.get(j["id"]))
+        culprit = culprit or res[j["id"]][0] == "crash"
+    return res, ([] if culprit else seqs)
+
+
 def evaluate(ctx, cases, exe, model):
     """returns (correspondence mismatches, oracle failures)"""
     jobs = [{"id": c["id"], "sheet": build_sheet(c), "source": build_source(c)} for c in cases]
-    res = xsltrun.run(jobs, exe=exe)
+    res, crashed_seqs = run_jobs(jobs, exe)
     corr, orc = [], []
     lines, parsed = [], {}
     for c in cases:
@@ -412,16 +507,21 @@ def evaluate(ctx, cases, exe, model):
             orc.append({"case": c, "what": "the transformation failed: %r" % (got,)})
             continue
         p = parse_output(got[1].decode("utf-8"))
-        if p is None:
+        if p is None or len(p) != len(c["sels"]):
             orc.append({"case": c, "what": "unexpected output %r" % got[1][:200]})
             continue
-        uns, srt = p
-        parsed[c["id"]] = (uns, srt)
-        ctx.count("size:%s" % ("0-1" if len(uns) < 2 else "2-16" if len(uns) <= 16 else "17-32" if len(uns) <= 32 else ">32"))
-        msg = oracle(c, uns, srt)
-        if msg:
-            orc.append({"case": c, "what": msg, "got": ",".join("%d:%d/%d" % t for t in srt)})
-        lines.append(model_line(c, uns))
+        parsed[c["id"]] = p
+        ctx.count("passes:%d" % len(p))
+        for pi, (uns, srt) in enumerate(p):
+            ctx.count("size:%s" % ("0-1" if len(uns) < 2 else "2-16" if len(uns) <= 16 else "17-32" if len(uns) <= 32 else ">32"))
+            msg = oracle(c, uns, srt)
+            if msg:
+                orc.append({"case": c, "what": "pass %d (%s): %s" % (pi + 1, c["sels"][pi], msg), "got": ",".join("%d:%d/%d" % t for t in srt)})
+            lines.append(model_line(c, uns, "%s_%d" % (c["id"], pi)))
+    for seq in crashed_seqs[:3]:
+        orc.append({"case": {"id": "seq", "n": 10 ** 6, "keys": [], "sels": [], "sel": "", "mode": "", "cls": "sequence"},
+                    "what": "the driver crashed while running this sequence of transformations in one process (no single one crashes alone)",
+                    "sequence": seq})
     mres = {}
     if model and lines:
         rc, mres, raw = core.run_lines_parallel(model, lines)
@@ -429,25 +529,25 @@ def evaluate(ctx, cases, exe, model):
             ctx.broken.append("model driver exited with status %d: %s" % (rc, raw[-300:]))
     nontrivial = set()
     for c in cases:
-        if c["id"] not in parsed:
-            continue
-        uns, srt = parsed[c["id"]]
-        got = ",".join("%d:%d/%d" % t for t in srt)
-        if [i for i, _, _ in srt] != [i for i, _ in uns]:
-            nontrivial.add((got, json.dumps(c["keys"], sort_keys=True)))
-        if model:
-            ctx.cov["traces_validated_against_impl"] += 1
-            exp, pure = model_expected(c, uns, mres.get(c["id"]))
-            if exp != got:
-                corr.append({"case": c, "impl": got, "model": exp})
-            elif pure != [i for i, _, _ in srt]:
-                corr.append({"case": c, "impl": got, "model": "cache-free model differs: %r" % pure})
+        for pi, (uns, srt) in enumerate(parsed.get(c["id"], [])):
+            got = ",".join("%d:%d/%d" % t for t in srt)
+            if [i for i, _, _ in srt] != [i for i, _ in uns]:
+                nontrivial.add((got, json.dumps(c["keys"], sort_keys=True)))
+            if model:
+                ctx.cov["traces_validated_against_impl"] += 1
+                exp, pure = model_expected(c, uns, mres.get("%s_%d" % (c["id"], pi)))
+                if exp != got:
+                    corr.append({"case": c, "impl": got, "model": exp})
+                elif pure != [i for i, _, _ in srt]:
+                    corr.append({"case": c, "impl": got, "model": "cache-free model differs: %r" % pure})
     ctx.cov["distinct_nontrivial"] += len(nontrivial)
     return corr, orc
 
 
 def replay_text(o):
     c = o["case"]
+    if "sequence" in o:
+        return "# %s\n%s" % (o["what"], json.dumps({"sequence": o["sequence"]}))
     d = {"case": c, "sheet": build_sheet(c), "source": build_source(c)}
     return "# %s\n# library output: %s\n%s" % (o["what"], o.get("got", ""), json.dumps(d))
 
@@ -475,6 +575,10 @@ def run(ctx):
         return ctx.finish(LEVEL)
     known = {k["key"]: k for k in ctx.known.for_property("C16")}
 
+    if model:
+        bad = ieee_probe(ctx, model)
+        if bad:
+            ctx.broken.append("the bit-pattern model of the double comparisons disagrees with IEEE arithmetic: " + "; ".join(bad[:3]))
     probe = collation_probe(ctx, exe)
     if probe:
         ctx.broken.append("collation assumption does not hold in this environment: " + "; ".join(probe[:3]))
@@ -482,7 +586,7 @@ def run(ctx):
 
     count = 700 if not ctx.thorough else 6000
     cases = gen_cases(ctx, count)
-    ctx.cov["samples"] = [sort_elems_xml(c) + " over " + c["sel"] + " n=%d" % c["n"] for c in cases[8:14]]
+    ctx.cov["samples"] = [sort_elems_xml(c) + " over " + " and ".join(c["sels"]) + " n=%d" % c["n"] for c in cases[8:14]]
     corr, orc = evaluate(ctx, cases, exe, model)
     if (corr or not proved or not model or ctx.broken) and not orc and not ctx.thorough:
         ctx.escalated = True
@@ -498,7 +602,7 @@ def run(ctx):
             corr[0]["impl"][:200], str(corr[0]["model"])[:200]))
         ctx.notes["correspondence_mismatches"] = [{"impl": x["impl"][:300], "model": str(x["model"])[:300], "keys": sort_elems_xml(x["case"])} for x in corr[:10]]
     if orc:
-        orc.sort(key=lambda o: (o["case"]["n"], len(o["case"]["keys"])))
+        orc.sort(key=lambda o: ("crash" in o["what"], o["case"]["n"], len(o["case"]["keys"])))
         ctx.violation("oracle", "# C16 oracle failures; replay: python3 check.py C16 --replay <this file>\n" +
                       "\n".join(replay_text(o) for o in orc[:20]))
     ctx.notes["oracle_failures"] = len(orc)
@@ -513,18 +617,23 @@ def replay(ctx, path):
         if not line.strip() or line.startswith("#"):
             continue
         d = json.loads(line)
-        if "case" in d:
+        if "sequence" in d:
+            res, seqs = run_jobs(d["sequence"], exe, chunk=len(d["sequence"]))
+            bad = [j["id"] for j in d["sequence"] if res[j["id"]][0] == "crash"]
+            print("sequence of %d transformations in one process:" % len(d["sequence"]), "FAIL: crash" if (bad or seqs) else "ok")
+            rc |= 1 if (bad or seqs) else 0
+        elif "case" in d:
             c = d["case"]
             got = xsltrun.run([{"id": c["id"], "sheet": d["sheet"], "source": d["source"]}], exe=exe)[c["id"]]
             if got[0] != "ok":
                 print("FAIL", c["id"], got)
                 rc = 1
                 continue
-            uns, srt = parse_output(got[1].decode("utf-8"))
-            msg = oracle(c, uns, srt)
-            print(c["id"], sort_elems_xml(c), "over", c["sel"], "->", ",".join("%d:%d/%d" % t for t in srt))
-            print("  " + ("FAIL: " + msg if msg else "ok"))
-            rc |= 1 if msg else 0
+            for pi, (uns, srt) in enumerate(parse_output(got[1].decode("utf-8")) or []):
+                msg = oracle(c, uns, srt)
+                print(c["id"], sort_elems_xml(c), "over", c["sels"][pi], "->", ",".join("%d:%d/%d" % t for t in srt))
+                print("  " + ("FAIL: " + msg if msg else "ok"))
+                rc |= 1 if msg else 0
         else:   # lang corpus entry
             got = xsltrun.run([{"id": d["id"], "sheet": d["sheet"], "source": d["source"]}], exe=exe)[d["id"]]
             txt = got[1].decode() if got[0] == "ok" else repr(got)
